@@ -591,6 +591,56 @@ fn c18_q_from_iter() {
 #[kani::unwind(11)]
 fn c18_t_from_iter_vec8() { from_iter_body!(Vec8, 8, [0, 1, 2, 3, 4, 5, 6, 7]) }
 
+
+// ------------------------------------------------------------------------------------------------
+// wide vectors: From<tuple> / into_tuple (generated: one literal per dimension)
+// ------------------------------------------------------------------------------------------------
+/// K: fns=Vec16::from(tuple),Vec16::into_tuple | inst=Vec16<Tok> | bound=dim 16; unwind 18
+/// K: asserts=each token appears exactly once at the documented position, nothing dropped during conversion, each dropped exactly once at the end
+#[kani::proof]
+#[kani::unwind(18)]
+fn c18_q_tuple_vec16() {
+    let v = Vec16::<Tok>::from((Tok::new(0), Tok::new(1), Tok::new(2), Tok::new(3), Tok::new(4), Tok::new(5), Tok::new(6), Tok::new(7), Tok::new(8), Tok::new(9), Tok::new(10), Tok::new(11), Tok::new(12), Tok::new(13), Tok::new(14), Tok::new(15)));
+    assert!(peek(&v.0) == 0, "tuple element k lands in slot k"); assert!(peek(&v.1) == 1, "tuple element k lands in slot k"); assert!(peek(&v.2) == 2, "tuple element k lands in slot k"); assert!(peek(&v.3) == 3, "tuple element k lands in slot k"); assert!(peek(&v.4) == 4, "tuple element k lands in slot k"); assert!(peek(&v.5) == 5, "tuple element k lands in slot k"); assert!(peek(&v.6) == 6, "tuple element k lands in slot k"); assert!(peek(&v.7) == 7, "tuple element k lands in slot k"); assert!(peek(&v.8) == 8, "tuple element k lands in slot k"); assert!(peek(&v.9) == 9, "tuple element k lands in slot k"); assert!(peek(&v.10) == 10, "tuple element k lands in slot k"); assert!(peek(&v.11) == 11, "tuple element k lands in slot k"); assert!(peek(&v.12) == 12, "tuple element k lands in slot k"); assert!(peek(&v.13) == 13, "tuple element k lands in slot k"); assert!(peek(&v.14) == 14, "tuple element k lands in slot k"); assert!(peek(&v.15) == 15, "tuple element k lands in slot k");
+    check_drops(16, |_| 0);
+    let t = v.into_tuple();
+    assert!(peek(&t.0) == 0, "slot k goes to tuple position k"); assert!(peek(&t.1) == 1, "slot k goes to tuple position k"); assert!(peek(&t.2) == 2, "slot k goes to tuple position k"); assert!(peek(&t.3) == 3, "slot k goes to tuple position k"); assert!(peek(&t.4) == 4, "slot k goes to tuple position k"); assert!(peek(&t.5) == 5, "slot k goes to tuple position k"); assert!(peek(&t.6) == 6, "slot k goes to tuple position k"); assert!(peek(&t.7) == 7, "slot k goes to tuple position k"); assert!(peek(&t.8) == 8, "slot k goes to tuple position k"); assert!(peek(&t.9) == 9, "slot k goes to tuple position k"); assert!(peek(&t.10) == 10, "slot k goes to tuple position k"); assert!(peek(&t.11) == 11, "slot k goes to tuple position k"); assert!(peek(&t.12) == 12, "slot k goes to tuple position k"); assert!(peek(&t.13) == 13, "slot k goes to tuple position k"); assert!(peek(&t.14) == 14, "slot k goes to tuple position k"); assert!(peek(&t.15) == 15, "slot k goes to tuple position k");
+    check_drops(16, |_| 0);
+    kani::cover!(peek(&t.15) == 15, "last element");
+    drop(t);
+    check_drops(16, |_| 1);
+}
+/// K: fns=Vec32::from(tuple),Vec32::into_tuple | inst=Vec32<Tok> | bound=dim 32; unwind 34
+/// K: asserts=each token appears exactly once at the documented position, nothing dropped during conversion, each dropped exactly once at the end
+#[kani::proof]
+#[kani::unwind(34)]
+fn c18_q_tuple_vec32() {
+    let v = Vec32::<Tok>::from((Tok::new(0), Tok::new(1), Tok::new(2), Tok::new(3), Tok::new(4), Tok::new(5), Tok::new(6), Tok::new(7), Tok::new(8), Tok::new(9), Tok::new(10), Tok::new(11), Tok::new(12), Tok::new(13), Tok::new(14), Tok::new(15), Tok::new(16), Tok::new(17), Tok::new(18), Tok::new(19), Tok::new(20), Tok::new(21), Tok::new(22), Tok::new(23), Tok::new(24), Tok::new(25), Tok::new(26), Tok::new(27), Tok::new(28), Tok::new(29), Tok::new(30), Tok::new(31)));
+    assert!(peek(&v.0) == 0, "tuple element k lands in slot k"); assert!(peek(&v.1) == 1, "tuple element k lands in slot k"); assert!(peek(&v.2) == 2, "tuple element k lands in slot k"); assert!(peek(&v.3) == 3, "tuple element k lands in slot k"); assert!(peek(&v.4) == 4, "tuple element k lands in slot k"); assert!(peek(&v.5) == 5, "tuple element k lands in slot k"); assert!(peek(&v.6) == 6, "tuple element k lands in slot k"); assert!(peek(&v.7) == 7, "tuple element k lands in slot k"); assert!(peek(&v.8) == 8, "tuple element k lands in slot k"); assert!(peek(&v.9) == 9, "tuple element k lands in slot k"); assert!(peek(&v.10) == 10, "tuple element k lands in slot k"); assert!(peek(&v.11) == 11, "tuple element k lands in slot k"); assert!(peek(&v.12) == 12, "tuple element k lands in slot k"); assert!(peek(&v.13) == 13, "tuple element k lands in slot k"); assert!(peek(&v.14) == 14, "tuple element k lands in slot k"); assert!(peek(&v.15) == 15, "tuple element k lands in slot k"); assert!(peek(&v.16) == 16, "tuple element k lands in slot k"); assert!(peek(&v.17) == 17, "tuple element k lands in slot k"); assert!(peek(&v.18) == 18, "tuple element k lands in slot k"); assert!(peek(&v.19) == 19, "tuple element k lands in slot k"); assert!(peek(&v.20) == 20, "tuple element k lands in slot k"); assert!(peek(&v.21) == 21, "tuple element k lands in slot k"); assert!(peek(&v.22) == 22, "tuple element k lands in slot k"); assert!(peek(&v.23) == 23, "tuple element k lands in slot k"); assert!(peek(&v.24) == 24, "tuple element k lands in slot k"); assert!(peek(&v.25) == 25, "tuple element k lands in slot k"); assert!(peek(&v.26) == 26, "tuple element k lands in slot k"); assert!(peek(&v.27) == 27, "tuple element k lands in slot k"); assert!(peek(&v.28) == 28, "tuple element k lands in slot k"); assert!(peek(&v.29) == 29, "tuple element k lands in slot k"); assert!(peek(&v.30) == 30, "tuple element k lands in slot k"); assert!(peek(&v.31) == 31, "tuple element k lands in slot k");
+    check_drops(32, |_| 0);
+    let t = v.into_tuple();
+    assert!(peek(&t.0) == 0, "slot k goes to tuple position k"); assert!(peek(&t.1) == 1, "slot k goes to tuple position k"); assert!(peek(&t.2) == 2, "slot k goes to tuple position k"); assert!(peek(&t.3) == 3, "slot k goes to tuple position k"); assert!(peek(&t.4) == 4, "slot k goes to tuple position k"); assert!(peek(&t.5) == 5, "slot k goes to tuple position k"); assert!(peek(&t.6) == 6, "slot k goes to tuple position k"); assert!(peek(&t.7) == 7, "slot k goes to tuple position k"); assert!(peek(&t.8) == 8, "slot k goes to tuple position k"); assert!(peek(&t.9) == 9, "slot k goes to tuple position k"); assert!(peek(&t.10) == 10, "slot k goes to tuple position k"); assert!(peek(&t.11) == 11, "slot k goes to tuple position k"); assert!(peek(&t.12) == 12, "slot k goes to tuple position k"); assert!(peek(&t.13) == 13, "slot k goes to tuple position k"); assert!(peek(&t.14) == 14, "slot k goes to tuple position k"); assert!(peek(&t.15) == 15, "slot k goes to tuple position k"); assert!(peek(&t.16) == 16, "slot k goes to tuple position k"); assert!(peek(&t.17) == 17, "slot k goes to tuple position k"); assert!(peek(&t.18) == 18, "slot k goes to tuple position k"); assert!(peek(&t.19) == 19, "slot k goes to tuple position k"); assert!(peek(&t.20) == 20, "slot k goes to tuple position k"); assert!(peek(&t.21) == 21, "slot k goes to tuple position k"); assert!(peek(&t.22) == 22, "slot k goes to tuple position k"); assert!(peek(&t.23) == 23, "slot k goes to tuple position k"); assert!(peek(&t.24) == 24, "slot k goes to tuple position k"); assert!(peek(&t.25) == 25, "slot k goes to tuple position k"); assert!(peek(&t.26) == 26, "slot k goes to tuple position k"); assert!(peek(&t.27) == 27, "slot k goes to tuple position k"); assert!(peek(&t.28) == 28, "slot k goes to tuple position k"); assert!(peek(&t.29) == 29, "slot k goes to tuple position k"); assert!(peek(&t.30) == 30, "slot k goes to tuple position k"); assert!(peek(&t.31) == 31, "slot k goes to tuple position k");
+    check_drops(32, |_| 0);
+    kani::cover!(peek(&t.31) == 31, "last element");
+    drop(t);
+    check_drops(32, |_| 1);
+}
+/// K: fns=Vec64::from(tuple),Vec64::into_tuple | inst=Vec64<Tok> | bound=dim 64; unwind 66
+/// K: asserts=each token appears exactly once at the documented position, nothing dropped during conversion, each dropped exactly once at the end
+#[kani::proof]
+#[kani::unwind(66)]
+fn c18_t_tuple_vec64() {
+    let v = Vec64::<Tok>::from((Tok::new(0), Tok::new(1), Tok::new(2), Tok::new(3), Tok::new(4), Tok::new(5), Tok::new(6), Tok::new(7), Tok::new(8), Tok::new(9), Tok::new(10), Tok::new(11), Tok::new(12), Tok::new(13), Tok::new(14), Tok::new(15), Tok::new(16), Tok::new(17), Tok::new(18), Tok::new(19), Tok::new(20), Tok::new(21), Tok::new(22), Tok::new(23), Tok::new(24), Tok::new(25), Tok::new(26), Tok::new(27), Tok::new(28), Tok::new(29), Tok::new(30), Tok::new(31), Tok::new(32), Tok::new(33), Tok::new(34), Tok::new(35), Tok::new(36), Tok::new(37), Tok::new(38), Tok::new(39), Tok::new(40), Tok::new(41), Tok::new(42), Tok::new(43), Tok::new(44), Tok::new(45), Tok::new(46), Tok::new(47), Tok::new(48), Tok::new(49), Tok::new(50), Tok::new(51), Tok::new(52), Tok::new(53), Tok::new(54), Tok::new(55), Tok::new(56), Tok::new(57), Tok::new(58), Tok::new(59), Tok::new(60), Tok::new(61), Tok::new(62), Tok::new(63)));
+    assert!(peek(&v.0) == 0, "tuple element k lands in slot k"); assert!(peek(&v.1) == 1, "tuple element k lands in slot k"); assert!(peek(&v.2) == 2, "tuple element k lands in slot k"); assert!(peek(&v.3) == 3, "tuple element k lands in slot k"); assert!(peek(&v.4) == 4, "tuple element k lands in slot k"); assert!(peek(&v.5) == 5, "tuple element k lands in slot k"); assert!(peek(&v.6) == 6, "tuple element k lands in slot k"); assert!(peek(&v.7) == 7, "tuple element k lands in slot k"); assert!(peek(&v.8) == 8, "tuple element k lands in slot k"); assert!(peek(&v.9) == 9, "tuple element k lands in slot k"); assert!(peek(&v.10) == 10, "tuple element k lands in slot k"); assert!(peek(&v.11) == 11, "tuple element k lands in slot k"); assert!(peek(&v.12) == 12, "tuple element k lands in slot k"); assert!(peek(&v.13) == 13, "tuple element k lands in slot k"); assert!(peek(&v.14) == 14, "tuple element k lands in slot k"); assert!(peek(&v.15) == 15, "tuple element k lands in slot k"); assert!(peek(&v.16) == 16, "tuple element k lands in slot k"); assert!(peek(&v.17) == 17, "tuple element k lands in slot k"); assert!(peek(&v.18) == 18, "tuple element k lands in slot k"); assert!(peek(&v.19) == 19, "tuple element k lands in slot k"); assert!(peek(&v.20) == 20, "tuple element k lands in slot k"); assert!(peek(&v.21) == 21, "tuple element k lands in slot k"); assert!(peek(&v.22) == 22, "tuple element k lands in slot k"); assert!(peek(&v.23) == 23, "tuple element k lands in slot k"); assert!(peek(&v.24) == 24, "tuple element k lands in slot k"); assert!(peek(&v.25) == 25, "tuple element k lands in slot k"); assert!(peek(&v.26) == 26, "tuple element k lands in slot k"); assert!(peek(&v.27) == 27, "tuple element k lands in slot k"); assert!(peek(&v.28) == 28, "tuple element k lands in slot k"); assert!(peek(&v.29) == 29, "tuple element k lands in slot k"); assert!(peek(&v.30) == 30, "tuple element k lands in slot k"); assert!(peek(&v.31) == 31, "tuple element k lands in slot k"); assert!(peek(&v.32) == 32, "tuple element k lands in slot k"); assert!(peek(&v.33) == 33, "tuple element k lands in slot k"); assert!(peek(&v.34) == 34, "tuple element k lands in slot k"); assert!(peek(&v.35) == 35, "tuple element k lands in slot k"); assert!(peek(&v.36) == 36, "tuple element k lands in slot k"); assert!(peek(&v.37) == 37, "tuple element k lands in slot k"); assert!(peek(&v.38) == 38, "tuple element k lands in slot k"); assert!(peek(&v.39) == 39, "tuple element k lands in slot k"); assert!(peek(&v.40) == 40, "tuple element k lands in slot k"); assert!(peek(&v.41) == 41, "tuple element k lands in slot k"); assert!(peek(&v.42) == 42, "tuple element k lands in slot k"); assert!(peek(&v.43) == 43, "tuple element k lands in slot k"); assert!(peek(&v.44) == 44, "tuple element k lands in slot k"); assert!(peek(&v.45) == 45, "tuple element k lands in slot k"); assert!(peek(&v.46) == 46, "tuple element k lands in slot k"); assert!(peek(&v.47) == 47, "tuple element k lands in slot k"); assert!(peek(&v.48) == 48, "tuple element k lands in slot k"); assert!(peek(&v.49) == 49, "tuple element k lands in slot k"); assert!(peek(&v.50) == 50, "tuple element k lands in slot k"); assert!(peek(&v.51) == 51, "tuple element k lands in slot k"); assert!(peek(&v.52) == 52, "tuple element k lands in slot k"); assert!(peek(&v.53) == 53, "tuple element k lands in slot k"); assert!(peek(&v.54) == 54, "tuple element k lands in slot k"); assert!(peek(&v.55) == 55, "tuple element k lands in slot k"); assert!(peek(&v.56) == 56, "tuple element k lands in slot k"); assert!(peek(&v.57) == 57, "tuple element k lands in slot k"); assert!(peek(&v.58) == 58, "tuple element k lands in slot k"); assert!(peek(&v.59) == 59, "tuple element k lands in slot k"); assert!(peek(&v.60) == 60, "tuple element k lands in slot k"); assert!(peek(&v.61) == 61, "tuple element k lands in slot k"); assert!(peek(&v.62) == 62, "tuple element k lands in slot k"); assert!(peek(&v.63) == 63, "tuple element k lands in slot k");
+    check_drops(64, |_| 0);
+    let t = v.into_tuple();
+    assert!(peek(&t.0) == 0, "slot k goes to tuple position k"); assert!(peek(&t.1) == 1, "slot k goes to tuple position k"); assert!(peek(&t.2) == 2, "slot k goes to tuple position k"); assert!(peek(&t.3) == 3, "slot k goes to tuple position k"); assert!(peek(&t.4) == 4, "slot k goes to tuple position k"); assert!(peek(&t.5) == 5, "slot k goes to tuple position k"); assert!(peek(&t.6) == 6, "slot k goes to tuple position k"); assert!(peek(&t.7) == 7, "slot k goes to tuple position k"); assert!(peek(&t.8) == 8, "slot k goes to tuple position k"); assert!(peek(&t.9) == 9, "slot k goes to tuple position k"); assert!(peek(&t.10) == 10, "slot k goes to tuple position k"); assert!(peek(&t.11) == 11, "slot k goes to tuple position k"); assert!(peek(&t.12) == 12, "slot k goes to tuple position k"); assert!(peek(&t.13) == 13, "slot k goes to tuple position k"); assert!(peek(&t.14) == 14, "slot k goes to tuple position k"); assert!(peek(&t.15) == 15, "slot k goes to tuple position k"); assert!(peek(&t.16) == 16, "slot k goes to tuple position k"); assert!(peek(&t.17) == 17, "slot k goes to tuple position k"); assert!(peek(&t.18) == 18, "slot k goes to tuple position k"); assert!(peek(&t.19) == 19, "slot k goes to tuple position k"); assert!(peek(&t.20) == 20, "slot k goes to tuple position k"); assert!(peek(&t.21) == 21, "slot k goes to tuple position k"); assert!(peek(&t.22) == 22, "slot k goes to tuple position k"); assert!(peek(&t.23) == 23, "slot k goes to tuple position k"); assert!(peek(&t.24) == 24, "slot k goes to tuple position k"); assert!(peek(&t.25) == 25, "slot k goes to tuple position k"); assert!(peek(&t.26) == 26, "slot k goes to tuple position k"); assert!(peek(&t.27) == 27, "slot k goes to tuple position k"); assert!(peek(&t.28) == 28, "slot k goes to tuple position k"); assert!(peek(&t.29) == 29, "slot k goes to tuple position k"); assert!(peek(&t.30) == 30, "slot k goes to tuple position k"); assert!(peek(&t.31) == 31, "slot k goes to tuple position k"); assert!(peek(&t.32) == 32, "slot k goes to tuple position k"); assert!(peek(&t.33) == 33, "slot k goes to tuple position k"); assert!(peek(&t.34) == 34, "slot k goes to tuple position k"); assert!(peek(&t.35) == 35, "slot k goes to tuple position k"); assert!(peek(&t.36) == 36, "slot k goes to tuple position k"); assert!(peek(&t.37) == 37, "slot k goes to tuple position k"); assert!(peek(&t.38) == 38, "slot k goes to tuple position k"); assert!(peek(&t.39) == 39, "slot k goes to tuple position k"); assert!(peek(&t.40) == 40, "slot k goes to tuple position k"); assert!(peek(&t.41) == 41, "slot k goes to tuple position k"); assert!(peek(&t.42) == 42, "slot k goes to tuple position k"); assert!(peek(&t.43) == 43, "slot k goes to tuple position k"); assert!(peek(&t.44) == 44, "slot k goes to tuple position k"); assert!(peek(&t.45) == 45, "slot k goes to tuple position k"); assert!(peek(&t.46) == 46, "slot k goes to tuple position k"); assert!(peek(&t.47) == 47, "slot k goes to tuple position k"); assert!(peek(&t.48) == 48, "slot k goes to tuple position k"); assert!(peek(&t.49) == 49, "slot k goes to tuple position k"); assert!(peek(&t.50) == 50, "slot k goes to tuple position k"); assert!(peek(&t.51) == 51, "slot k goes to tuple position k"); assert!(peek(&t.52) == 52, "slot k goes to tuple position k"); assert!(peek(&t.53) == 53, "slot k goes to tuple position k"); assert!(peek(&t.54) == 54, "slot k goes to tuple position k"); assert!(peek(&t.55) == 55, "slot k goes to tuple position k"); assert!(peek(&t.56) == 56, "slot k goes to tuple position k"); assert!(peek(&t.57) == 57, "slot k goes to tuple position k"); assert!(peek(&t.58) == 58, "slot k goes to tuple position k"); assert!(peek(&t.59) == 59, "slot k goes to tuple position k"); assert!(peek(&t.60) == 60, "slot k goes to tuple position k"); assert!(peek(&t.61) == 61, "slot k goes to tuple position k"); assert!(peek(&t.62) == 62, "slot k goes to tuple position k"); assert!(peek(&t.63) == 63, "slot k goes to tuple position k");
+    check_drops(64, |_| 0);
+    kani::cover!(peek(&t.63) == 63, "last element");
+    drop(t);
+    check_drops(64, |_| 1);
+}
+
 // ------------------------------------------------------------------------------------------------
 // matrices: {into,from}_{row,col}_array(s), map — both layouts
 // ------------------------------------------------------------------------------------------------
